@@ -76,8 +76,7 @@ def namedDevs : List (String × String × Dev) :=
 
 /-- the known findings of C13 (and C12) at schema level -/
 def knownDevs : List (String × String × Dev) :=
-  [("Case", "arg", .unvisited),
-   ("Case", "default", .none),
+  [("Case", "default", .none),
    ("CommonTableExpression", "query", .unvisited),
    ("CreateKnowledgeBase", "from_query", .unvisited),
    ("CreateTable", "columns", .extra),
@@ -134,10 +133,15 @@ def wUpdate : Node := .mk (cid "Update") 0 0
 theorem C13_witness_update : tagsOf wUpdate = [some 0, some 1, some 3, some 2]
     ∧ expTags wUpdate = [some 0, some 1, some 2, some 3] := by decide +kernel
 
-/-- `CASE x WHEN a THEN b END`: the operand is not visited and `None` is passed for the missing ELSE -/
+/-- `CASE x WHEN a THEN b END`: `None` is passed to the visitor for the missing ELSE.
+(regression, fixed by a58885a: the operand `x` is visited first, in textual position) -/
 def wCase : Node := .mk (cid "Case") 0 0 [leaf "Case" "arg" 1, leaf "Case" "rules" 2, leaf "Case" "rules" 3]
-theorem C13_witness_case : tagsOf wCase = [some 0, some 2, some 3, none]
+theorem C13_witness_case : tagsOf wCase = [some 0, some 1, some 2, some 3, none]
     ∧ expTags wCase = [some 0, some 1, some 2, some 3] := by decide +kernel
+/-- (regression example) with an ELSE the simple CASE satisfies the hypothesis of `C13_partial` -/
+example : okTree σ (.mk (cid "Case") 0 0
+    [leaf "Case" "arg" 1, leaf "Case" "rules" 2, leaf "Case" "rules" 3, leaf "Case" "default" 4]) = true := by
+  decide +kernel
 
 /-- `f(a FROM b)` and `DELETE FROM t WHERE c` -/
 def wFunction : Node := .mk (cid "Function") 0 0 [leaf "Function" "args" 1, leaf "Function" "from_arg" 2]
